@@ -68,6 +68,50 @@ type Iface struct {
 	// type: mocking it is don't-care, mocking its target twice is not.
 	Alias bool `json:"alias,omitempty"`
 	File   int `json:"file,omitempty"` // index of the source file of the package it is declared in
+	// XEmbeds embeds interfaces declared in OTHER source packages of the module (which are
+	// mocked in the same run): the embedded methods are then the same type-checker objects in
+	// two output files that must qualify their types differently.
+	XEmbeds []XRef `json:"xembeds,omitempty"`
+}
+
+// XRef names an interface of another source package of the module.
+type XRef struct {
+	Pkg   int    `json:"pkg"` // index into Module.Pkgs (always smaller than the embedding package's index)
+	Iface string `json:"iface"`
+}
+
+// XQual is the import name the source files use for source package i.
+func XQual(i int) string { return fmt.Sprintf("xsrc%d", i) }
+
+// FixXEmbeds drops cross-package embeddings whose target no longer exists (after a reduction).
+func (m *Module) FixXEmbeds() {
+	for pi := range m.Pkgs {
+		for ii := range m.Pkgs[pi].Ifaces {
+			it := &m.Pkgs[pi].Ifaces[ii]
+			var keep []XRef
+			for _, x := range it.XEmbeds {
+				ok := false
+				if x.Pkg >= 0 && x.Pkg < pi {
+					for _, t := range m.Pkgs[x.Pkg].Ifaces {
+						if t.Name == x.Iface && len(t.TParams) == 0 && t.InstOf == nil {
+							ok = true
+							for _, tm := range t.Methods {
+								for _, om := range it.Methods {
+									if tm.Name == om.Name {
+										ok = false
+									}
+								}
+							}
+						}
+					}
+				}
+				if ok {
+					keep = append(keep, x)
+				}
+			}
+			it.XEmbeds = keep
+		}
+	}
 }
 
 type Pkg struct {
